@@ -13,7 +13,7 @@ bindings runs under a counting, poisoning, red-zoned global allocator (harness/g
 Thorough tier additionally re-runs a sample of the guest binaries under valgrind memcheck (search aid).
 Proved part: Props/C06.v (ledger prediction of the spec host is address-independent and well-formed; post-return exists iff
 the result can hold heap data [C03]; Cleanup / cabi_dealloc facts [C24]).  The comparison with the real bindings is differential."""
-import json, os
+import json, os, re
 import vf
 import genrun_rust as G
 from checks import c05
@@ -55,10 +55,15 @@ def valgrind_leg(ctx, tools, units, stats):
     errs = []
     for f in os.listdir(logdir):
         txt = open(os.path.join(logdir, f)).read()
-        for block in txt.split("\n==")[0:]:
-            pass
-        if "Invalid read" in txt or "Invalid write" in txt or "Invalid free" in txt or "Mismatched free" in txt or "uninitialised" in txt:
-            errs.append(txt[:3000])
+        # one report = a run of `==pid== …` lines up to the next blank `==pid==` line
+        for rep in re.split(r"\n==\d+== *\n", txt):
+            if not re.search(r"Invalid read|Invalid write|Invalid free|Mismatched free|uninitialised", rep):
+                continue
+            frames = re.findall(r"(?:at|by) 0x[0-9A-F]+: (\S+)", rep)[:8]
+            # reads of padding bytes by the harness's own memory snapshot are not the guest's doing
+            if any("::rt::snapshot" in fr or "::rt::hex" in fr or "::rt::check_redzones" in fr for fr in frames):
+                continue
+            errs.append(rep[:3000])
     import shutil as sh_
     sh_.rmtree(logdir, ignore_errors=True)
     stats["valgrind_calls"] = st.get("calls", 0)
